@@ -23,7 +23,7 @@ LINTS = [
     ("L.try-send", "requests to the worker are never dropped: the channel send blocks",
      r"mpsc::SyncSender::<T>::try_send$",
      None,
-     "a request to the flush worker is sent with try_send: it is dropped when the queue is full"),
+     "a request to the flush worker (or an acknowledgement to the caller) is sent with try_send: it is dropped when the queue is full"),
     ("L.file-create-truncate", "chunk files are never opened with truncate/File::create (only create_new)",
      r"fs::File::create$",
      None,
@@ -47,8 +47,9 @@ def run(ctx, rep, rule_ids):
                 continue
             if scope is not None and not re.search(scope, b["key"]):
                 continue
-            # the test-support Callback impl for SyncSender is not part of the store
-            if re.search(r" as raft_log::wal::callback::Callback>::send$", b["key"]):
+            # the crate's own Callback impl for SyncSender is what most users hand to flush(): a try_send there drops acknowledgements
+            # (seed C04-10); only the blocking-send lints that do not concern it skip it
+            if rid != "L.try-send" and re.search(r" as raft_log::wal::callback::Callback>::send$", b["key"]):
                 continue
             n_bad += 1
             rep.violation(rid, "%s|%s" % (short_key(b["key"]), cpath(t).split("::")[-1]), cpath(t), msg,
